@@ -59,6 +59,9 @@ func c03Key(c xferCase, o xferOutcome) string {
 	if h == "" {
 		h = "none"
 	}
+	if c.Selection != "" {
+		return fmt.Sprintf("healthy-transfer-failed:%s:%s:selection=%s", mode, c.Cfg.Transport, c.Selection)
+	}
 	return fmt.Sprintf("healthy-transfer-failed:%s:%s:%s:names=%s:history=%s", mode, c.Cfg.Transport, c.Shape, c.Names, h)
 }
 
@@ -174,6 +177,18 @@ func genC03Cases(e *Env) []xferCase {
 			}
 		}
 	}
+	// (c2) selections of several hosted paths with equal base names, typed in
+	// sorted and in unsorted order (scanner and path resolver must agree)
+	for _, sel := range []string{"dup2-unsorted", "dup3-unsorted", "dup2-sorted", "dup2-unsorted-distinct", "dup3-unsorted-distinct"} {
+		for k := 0; k < e.Pick(6, 20); k++ {
+			c := xferCase{Shape: []string{"onefile", "nested", "manysmall"}[k%3], Names: "plain", TSeed: r.U64(), Selection: sel}
+			c.Cfg.Streams, c.Cfg.Resume = 1+r.Intn(4), r.Bool()
+			c.Cfg.Conns = 1 + r.Intn(2)
+			c.Cfg.ChunkSize = []uint32{16, 64, 4096}[r.Intn(3)]
+			c.Cfg.NoRootDir, c.Cfg.ScanPaths = r.Bool(), true
+			add(c)
+		}
+	}
 	// (d) random beyond the grid
 	for k := 0; k < e.Pick(500, 1500); k++ {
 		c := xferCase{Shape: []string{"onefile", "manysmall", "nested", "fewchunks", "boundary", "zerolen"}[r.Intn(6)], Names: []string{"plain", "unicode", "dotdash", "backslash", "control", "long255"}[r.Intn(6)], TSeed: r.U64()}
@@ -235,6 +250,10 @@ func treeForCase(c xferCase) vk.Tree {
 
 // runC03Case runs one healthy transfer (with its history) and judges it.
 func runC03Case(e *Env, lp *vk.ListenerPool, c xferCase) xferOutcome {
+	if c.Selection != "" {
+		// several hosted paths with the same base name: C01's runner builds the selection
+		return runXferCase(e, lp, c, false)
+	}
 	out := xferOutcome{Case: c}
 	base := vk.TempDir(e.Work, "c03-")
 	defer os.RemoveAll(base)
@@ -367,7 +386,7 @@ func runC03(e *Env) {
 			e.R.Inconcl(c.ID + ": " + o.Res.Inconclusive)
 			return
 		}
-		e.R.Distinct(fmt.Sprintf("%s/%s/s%d/c%d/cs%d/res%v/%s", c.Shape, c.Names, c.Cfg.Streams, c.Cfg.Conns, c.Cfg.ChunkSize, c.Cfg.Resume, c.History))
+		e.R.Distinct(fmt.Sprintf("%s/%s/s%d/c%d/cs%d/res%v/%s%s", c.Shape, c.Names, c.Cfg.Streams, c.Cfg.Conns, c.Cfg.ChunkSize, c.Cfg.Resume, c.History, c.Selection))
 		if o.Res.BothOK() && len(o.Diff) == 0 {
 			e.R.Count("completed")
 			e.R.Sample(caseSample(o))
